@@ -300,6 +300,18 @@ def check_sign(ctx, seed, m, alt_seed):
         s2 = bytearray(sig); s2[j // 8] ^= 1 << (j % 8)
         alts.append((f'signature-bit', pk, m, bytes(s2)))
     alts += [('signature-truncated', pk, m, sig[:63]), ('signature-extended', pk, m, sig + b'\x00'), ('signature-zero', pk, m, bytes(64))]
+    # the boundary between signature and message moved: (sig || m[:k], m[k:]) and the splice the other way round (a genuine
+    # signature over X||m followed by X) - "another message / an altered signature" even though sig||msg is the same byte string
+    if len(m) >= 1:
+        k = 1 + rng.randrange(len(m))
+        alts.append(('boundary-shift', pk, m[k:], sig + m[:k]))
+    x = rng.randbytes(1 + rng.randrange(8))
+    sx = call(sign_message, x + m, sk)
+    if sx is not None:
+        alts.append(('boundary-splice', pk, m, sx + x))
+    # a signature that verified once for m must not verify for another message afterwards (nothing is remembered per key/signature)
+    alts.append(('replayed-for-other-message', pk, m + b'!', sig))
+    alts.append(('replayed-for-empty-message', pk, b'' if m else b'x', sig))
     for what, k, mm, ss in alts:
         ctx.case(('sign-alt', seed, m, what, k, mm, ss), nontrivial=True, sample=None)
         ctx.count(f'sign-reject:{what}')
@@ -482,6 +494,18 @@ def mnemonic_cases(ctx):
     for _ in range(ctx.n(300, 3000)):
         check_validity(ctx, [rng.choice(K.words) for _ in range(24)], 'random-24')
     check_validity(ctx, [], 'empty')
+    # valid mnemonics holding the FIRST and the LAST word of the list (index 0 / 2047 are values like any other): found by
+    # drawing lists with that word forced at a random position until one is a basic seed (1 in 256)
+    for w_ in (K.words[0], K.words[-1], K.words[1]):
+        for _ in range(ctx.n(2, 8)):
+            for _try in range(5000):
+                ws = [rng.choice(K.words) for _ in range(24)]
+                ws[rng.randrange(24)] = w_
+                if rng.random() < 0.3:
+                    ws[rng.randrange(24)] = w_
+                if ref_valid(ws):
+                    check_validity(ctx, ws, 'valid-with-edge-word')
+                    break
     # lists whose entropy IS a basic seed but whose length is not 24: must be invalid by length alone
     for n in [23, 25, 12, 18, 1] + [rng.randrange(1, 49) for _ in range(ctx.n(3, 20))]:
         if n == 24:
